@@ -35,6 +35,8 @@ func TestMain(m *testing.M) {
 type Case struct {
 	Graph *model.Graph `json:"graph"`
 	Steps []model.Step `json:"steps"`
+	// Arrival: how the graph got into the store (nil = every element written once)
+	Arrival *gripx.Arrival `json:"arrival,omitempty"`
 }
 
 type loaded struct {
@@ -42,8 +44,15 @@ type loaded struct {
 	gi gdbi.GraphInterface
 }
 
-func load(t pbt.TB, g *model.Graph) *loaded {
-	gi, err := gripx.Load(gripx.DB("badger"), gripx.FreshName(), g)
+func load(t pbt.TB, g *model.Graph, arr ...*gripx.Arrival) *loaded {
+	var a *gripx.Arrival
+	if len(arr) > 0 {
+		a = arr[0]
+	}
+	if a != nil {
+		pbt.Class(t, "graph-arrived-through-overwrites-and-deletes")
+	}
+	gi, err := gripx.LoadVia(gripx.DB("badger"), gripx.FreshName(), g, a)
 	if err != nil {
 		t.Fatalf("INFRA: cannot load graph: %v", err)
 	}
@@ -108,20 +117,7 @@ func expectedCount(s model.Step, n int) int {
 	panic("not a truncation step")
 }
 
-func distinctKey(t *model.Trav, fields []string) (string, bool) {
-	if len(fields) == 0 {
-		fields = []string{"_gid"}
-	}
-	parts := make([]string, len(fields))
-	for i, f := range fields {
-		v, ok := t.Lookup(f)
-		if !ok {
-			return "", false
-		}
-		parts[i] = model.Canon(v)
-	}
-	return strings.Join(parts, "\x00"), true
-}
+func distinctKey(t *model.Trav, fields []string) (string, bool) { return model.DistinctKey(t, fields) }
 
 // judge runs one case; returns false if it was not judged (unspecified).
 func judge(t pbt.TB, ld *loaded, c Case) {
@@ -162,12 +158,23 @@ func judge(t pbt.TB, ld *loaded, c Case) {
 			return
 		}
 	}
+	// j: the first step whose result depends on the (undocumented) row order. A distinct()
+	// whose groups hold identical travelers only is not such a step (model.EvalX).
 	j := -1
 	for i, s := range steps {
-		if model.OrderSensitive(s) {
-			j = i
-			break
+		if !model.OrderSensitive(s) {
+			continue
 		}
+		if s.Op == "distinct" {
+			if _, _, unspec, _ := model.EvalX(ld.g, steps[:i+1]); !strings.HasPrefix(unspec, "order-sensitive step") {
+				if unspec == "" {
+					pbt.Class(t, "distinct-with-identical-groups:exact")
+				}
+				continue
+			}
+		}
+		j = i
+		break
 	}
 	nontrivial := func(nref int) {
 		if nref >= 1 && len(steps) >= 3 {
@@ -355,21 +362,21 @@ func TestReplay(t *testing.T) {
 	if err := json.Unmarshal(cf.Case, &c); err != nil {
 		t.Fatal(err)
 	}
-	judge(t, load(t, c.Graph), c)
+	judge(t, load(t, c.Graph, c.Arrival), c)
 }
 
 func TestRandom(t *testing.T) {
 	pbt.Check(t, 3000, 200000, func(rt *rapid.T) {
 		g := gen.Graph(rt, 6, 12)
 		steps := gen.Traversal(rt, gen.TravOpts{MaxLen: 10, RowCountHint: 5})
-		c := Case{Graph: g, Steps: steps}
+		c := Case{Graph: g, Steps: steps, Arrival: gen.Arrival(rt, g)}
 		pbt.Current(rt, c)
 		classifyGraph(rt, g)
 		classifySteps(rt, steps)
 		if pbt.WantSample(rt) {
 			pbt.Sample(rt, map[string]interface{}{"graph": g, "traversal": model.TravString(steps)})
 		}
-		judge(rt, load(rt, g), c)
+		judge(rt, load(rt, g, c.Arrival), c)
 	})
 }
 
